@@ -13,6 +13,7 @@ import (
 	"errors"
 	"fmt"
 	"math/rand"
+	"reflect"
 	"strings"
 	"time"
 
@@ -133,6 +134,69 @@ func execEvent(op string, args []string) string {
 			return classifyErr(err, in)
 		}
 		return withLen(pduTuple(p, false), p)
+	case "untrusted_view":
+		// C04 "observable through any accessor": every accessor of an event the untrusted constructor returned is a function of
+		// its JSON() (theorem accessors_only_see_json) - the event re-read from its own JSON as trusted input, with the same
+		// redacted flag, answers every accessor identically, including the ones outside the tuple of parse_untrusted
+		// (Redacts(), IsSticky(), StickyEndTime(), Version(), SenderID, ...).  ok | ok:refused | bad:<accessor>
+		v, err := verOf(args[0])
+		if err != nil {
+			return "err:version"
+		}
+		in := unhx(args[1])
+		var p gmsl.PDU
+		var perr error
+		if r := Guard(func() string { p, perr = v.NewEventFromUntrustedJSON(in); return "" }); r != "" {
+			return "ok" // a panic is reported by parse_untrusted on the same text
+		}
+		if p == nil || reflect.ValueOf(p).IsNil() {
+			return "ok"
+		}
+		if perr != nil {
+			// an event handed back together with an error is one the caller may keep ("too large but persistable"):
+			// it is held to the same clauses
+			var ve gmsl.EventValidationError
+			if !errors.As(perr, &ve) || !ve.Persistable {
+				return "ok"
+			}
+		}
+		// hash clause, judged on what the caller gets: an event not flagged redacted has a matching content hash; a flagged one
+		// is its own redaction
+		js := p.JSON()
+		if !p.Redacted() {
+			if !independentHashOK(js) {
+				return "bad:unredacted-but-content-hash-does-not-match"
+			}
+		} else {
+			red, rerr := v.RedactEventJSON(js)
+			if rerr == nil {
+				if c, cerr := gmsl.CanonicalJSON(red); cerr != nil || !bytes.Equal(c, js) {
+					return "bad:flagged-redacted-but-JSON-is-not-its-redaction"
+				}
+			}
+		}
+		q, err := v.NewEventFromTrustedJSONWithEventID(p.EventID(), p.JSON(), p.Redacted())
+		if err != nil {
+			if perr != nil {
+				return "ok"
+			}
+			return "bad:own-JSON-refused-as-trusted"
+		}
+		now, rcv := time.UnixMilli(1700000000000), time.UnixMilli(1700000001000)
+		view := func(e gmsl.PDU) []string {
+			return []string{"tuple=" + pduTuple(e, true), "redacts=" + hx([]byte(e.Redacts())),
+				fmt.Sprintf("sticky=%v", e.IsSticky(now, rcv)), fmt.Sprintf("stickyEnd=%d", e.StickyEndTime(rcv).UnixMilli()),
+				"version=" + string(e.Version()), "membership=" + safeStr(func() string { m, err := e.Membership(); return fmt.Sprint(m, err != nil) }),
+				"joinrule=" + safeStr(func() string { m, err := e.JoinRule(); return fmt.Sprint(m, err != nil) }),
+				"skEq=" + fmt.Sprint(e.StateKeyEquals(""), e.StateKey() == nil)}
+		}
+		a, b := view(p), view(q)
+		for i := range a {
+			if a[i] != b[i] {
+				return "bad:" + strings.SplitN(a[i], "=", 2)[0]
+			}
+		}
+		return "ok"
 	case "parse_trusted":
 		v, err := verOf(args[0])
 		if err != nil {
@@ -621,6 +685,17 @@ type tampering struct {
 }
 
 var tamperings = []tampering{
+	// top-level members outside every keep list that have an accessor of their own (Redacts(), IsSticky(), StickyEndTime()),
+	// added together with a content change: the accessors of the redacted view must not show them (seed C04-r4m1)
+	{"inject.accessor-keys", func(r *Rng, m pduMap) {
+		editContent(m, func(c pduMap) { c["body"] = rawStr("tampered") })
+		if r.Chance(70) {
+			m["redacts"] = rawStr("$forged:evil")
+		}
+		if r.Chance(60) {
+			m[Pick(r, []string{"sticky", "msc4354_sticky"})] = json.RawMessage(`{"duration_ms":600000}`)
+		}
+	}},
 	{"content.add-unprotected", func(r *Rng, m pduMap) {
 		editContent(m, func(c pduMap) { c[Pick(r, redactNeighbourKeys)] = rawStr("tampered") })
 	}},
@@ -1155,6 +1230,10 @@ func emitParseAll(o *Out, r *Rng, label, ver string, text []byte, id string) {
 	hv := ver
 	im := o.Do("parse_untrusted", hv, hx(text))
 	o.Count(label + ".untrusted." + outcomeClass(im))
+	if strings.HasPrefix(im, "ok:") || strings.Contains(im, "persistable") {
+		v := o.Do("untrusted_view", hv, hx(text))
+		o.Count("view." + strings.SplitN(v, ":", 2)[0] + "." + outcomeClass(im))
+	}
 	if r.Chance(50) {
 		im = o.Do("parse_trusted", hv, Pick(r, []string{"0", "1"}), hx(text))
 		o.Count(label + ".trusted." + outcomeClass(im))
@@ -1452,4 +1531,40 @@ func pduClass(im string) string {
 		return im
 	}
 	return "other"
+}
+
+// independentHashOK recomputes the content hash of an event text without the library's event code: the members other than
+// unsigned / signatures / hashes, canonical JSON, SHA-256, against hashes.sha256 (unpadded standard base64).
+func independentHashOK(js []byte) bool {
+	var m map[string]json.RawMessage
+	if json.Unmarshal(js, &m) != nil {
+		return false
+	}
+	var h struct {
+		Sha256 string `json:"sha256"`
+	}
+	if json.Unmarshal(m["hashes"], &h) != nil {
+		return false
+	}
+	// (C17: base64 values are read from the standard and from the URL-safe unpadded alphabet)
+	want, err := base64.RawStdEncoding.DecodeString(h.Sha256)
+	if err != nil {
+		if want, err = base64.RawURLEncoding.DecodeString(h.Sha256); err != nil {
+			return false
+		}
+	}
+	// (member order does not matter: canonical JSON sorts; duplicate names cannot occur in an accepted event)
+	delete(m, "unsigned")
+	delete(m, "signatures")
+	delete(m, "hashes")
+	b, err := json.Marshal(m)
+	if err != nil {
+		return false
+	}
+	c, err := gmsl.CanonicalJSON(b)
+	if err != nil {
+		return false
+	}
+	sum := sha256.Sum256(c)
+	return bytes.Equal(sum[:], want)
 }
